@@ -89,7 +89,7 @@ def sched_kwargs(cfg):
 # -----------------------------------------------------------------------------
 
 RECORD_CLASSES = ["white", "walk", "sine+noise", "offset1e6", "ramp", "impulses", "tiny", "huge",
-                  "ar1"]
+                  "ar1", "offset3e10"]
 
 
 def record(rng, N, klass):
@@ -103,6 +103,8 @@ def record(rng, N, klass):
             + 0.1 * rng.standard_normal(N)
     elif klass == "offset1e6":
         x = 1e6 + rng.standard_normal(N)
+    elif klass == "offset3e10":
+        x = 3e10 + rng.standard_normal(N)
     elif klass == "ramp":
         x = rng.uniform(-5, 5) * t / max(N, 1) * 100 + rng.standard_normal(N)
     elif klass == "impulses":
